@@ -89,6 +89,7 @@ impl World {
                     }
                     w.nodes[i] = Some(cur);
                 }
+                "spare" => {}
                 "create" => {
                     let t = d["text"].as_str().unwrap_or("x");
                     let node = match w.kind[i].as_str() {
@@ -113,9 +114,11 @@ impl World {
             }
         }
         for i in 1..=n {
-            let id = w.nodes[i].as_ref().unwrap().id();
-            let d = if w.kind[i] == "doc" { i } else { w.owner[i] };
-            w.ids.insert((d, id), i);
+            if let Some(nd) = w.nodes[i].as_ref() {
+                let id = nd.id();
+                let d = if w.kind[i] == "doc" { i } else { w.owner[i] };
+                w.ids.insert((d, id), i);
+            }
         }
         Ok(w)
     }
@@ -180,6 +183,15 @@ impl World {
         let mut has = vec![];
         let mut ord = vec![];
         for i in 1..=n {
+            if self.nodes[i].is_none() {
+                // a spare slot: the node does not exist (yet)
+                kids.push(json!([]));
+                attrs.push(json!([]));
+                for v in [&mut par, &mut first, &mut last, &mut prev, &mut next, &mut has, &mut ord] {
+                    v.push(J::from(0));
+                }
+                continue;
+            }
             let h = self.node(i).clone();
             if self.kind[i] == "doc" && i != 1 {
                 // a foreign document: only the pool nodes among its children are observed
@@ -384,6 +396,45 @@ impl World {
                 }
             }
             _ => json!({"panic": format!("harness: unknown op {}", op)}),
+        }
+    }
+
+    /// first unused spare slot of the main document
+    pub fn spare(&self) -> Option<usize> {
+        (1..=self.n()).find(|i| self.nodes[*i].is_none() && self.owner[*i] == 1)
+    }
+
+    /// calls that create nodes need `&mut self`: split_text puts the new node into the slot `new`
+    pub fn exec_mut(&mut self, c: &J) -> J {
+        if c["op"] != "split_text" {
+            return self.exec(c);
+        }
+        use xml_dom::TextMut;
+        let r = c["r"].as_u64().unwrap_or(0) as usize;
+        let slot = c["new"].as_u64().unwrap_or(0) as usize;
+        let off = c["off"].as_u64().unwrap_or(0) as usize;
+        let t = match self.node(r) {
+            XmlNode::Text(t) => t.clone(),
+            _ => return json!({"panic": "harness: split_text on a non-text node"}),
+        };
+        match guarded(move || t.split_text(off)) {
+            Ok(Ok(n2)) => {
+                let node = n2.as_node();
+                let id = node.id();
+                self.nodes[slot] = Some(node);
+                self.ids.insert((1, id), slot);
+                json!({"ok": slot})
+            }
+            Ok(Err(e)) => json!({"err": Self::err_name(&e)}),
+            Err(p) => json!({"panic": p}),
+        }
+    }
+
+    pub fn text_len(&self, i: usize) -> usize {
+        use xml_dom::CharacterData;
+        match self.node(i) {
+            XmlNode::Text(t) => t.length(),
+            _ => 0,
         }
     }
 
